@@ -70,6 +70,15 @@ def lattice(ctx):
                                               'prepared': dict(UNSET_STMT), 'meta_keyspace': None, 'bind_via_session': False, 'lattice': True,
                                               'dbaas': dbaas, 'profile_cl_chosen': pch, 'session_cl_chosen': sch,
                                               'added_later': later and mode == 'Profiles'})
+    # which row factory BUILDS the rows: ordinary ROWS answer and continuous paging (DSE_V1/DSE_V2, profile with options)
+    for mode in ('Legacy', 'Profiles'):
+        for kind in ('Simple', 'Bound'):
+            for cont in (False, True):
+                for pv in (65, 66):
+                    for bits in ((0, 0, 0, 0, 0, 0), (1, 0, 1, 1, 0, 1)):
+                        cases.append({'mode': mode, 'kind': kind, 'stmt': stmt_from_bits(bits), 'profile': PROFILE, 'session': SESSION,
+                                      'timeout': P.NOT_SET, 'paging': None, 'pv': pv, 'prepared': dict(UNSET_STMT), 'meta_keyspace': None,
+                                      'bind_via_session': False, 'lattice': True, 'cont': cont})
     # is the speculative-execution policy really used?  idempotent or not x timeout argument unset / None / below / above the delay
     for mode in ('Legacy', 'Profiles'):
         for kind in ('Simple', 'Bound', 'Batch'):
@@ -106,6 +115,8 @@ def random_cases(ctx, n):
                     'config_mode_value': rng.choice((0, 2)), 'lattice': False, 'dbaas': rng.random() < 0.3,
                     'profile_cl_chosen': rng.random() < 0.7, 'session_cl_chosen': rng.random() < 0.7, 'added_later': rng.random() < 0.3,
                     'spec_delay': rng.choice((0.05, 0.05, 0.4, 5.0))})
+        if out[-1]['pv'] in (65, 66) and rng.random() < 0.5:
+            out[-1]['cont'] = True
     return out
 
 
@@ -184,6 +195,8 @@ def oracle(ctx, case, res):
                 bad.append(('fetch_size', exp_f, res['fetch']))
         if res['rowf'] != base['rowf']:
             bad.append(('row_factory', base['rowf'], res['rowf']))
+        if res.get('built_by') is not None and res['built_by'] != base['rowf']:
+            bad.append(('row_factory.builds-rows%s' % ('.continuous-paging' if res.get('cont') else ''), base['rowf'], res['built_by']))
         if res['lbp'] != base['lbp']:
             bad.append(('load_balancing_policy', base['lbp'], res['lbp']))
         exp_spec = case['profile']['spec'] if (mode == 'Profiles' and st['idem']) else None
@@ -236,7 +249,7 @@ def run(ctx):
     ctx.exhaustive = True
     ctx.rule = ('exhaustive: 2^6 set/unset combinations of statement options (consistency, serial consistency, retry policy, fetch size, keyspace, '
                 'idempotence) x timeout argument set/unset x {simple, bound, batch} x {legacy, profiles} x protocol versions %r; 2^4 x 2^4 '
-                'prepared-vs-bound inheritance lattice x both binding paths; {ordinary, DBaaS cluster} x profile level chosen/not x session level chosen/not x profile added later; configuration histories on a real Cluster (7 constructor shapes x every sequence of <= 2/3 later legacy assignments / add_execution_profile); the timer armed at creation (speculative vs timeout); plus random option values (None timeouts/fetch sizes, '
+                'prepared-vs-bound inheritance lattice x both binding paths; {ordinary, DBaaS cluster} x profile level chosen/not x session level chosen/not x profile added later; configuration histories on a real Cluster (7 constructor shapes x every sequence of <= 2/3 later legacy assignments / add_execution_profile); the timer armed at creation (speculative vs timeout); the factory that really builds the rows of a delivered answer (ordinary and continuous paging on DSE_V1/V2); plus random option values (None timeouts/fetch sizes, '
                 'serial levels on profile/session, profile by name/object, uncommitted config mode); non-trivial = at least one statement '
                 'option set' % (pvs,))
     cases, meta = [], []
